@@ -79,6 +79,17 @@ pub fn base_script(name: &str) -> (Instr, Vec<String>) {
             ]),
             vec!["A".into(), "M".into(), "B".into()],
         ),
+        // data that comes to the victim a second time: honest A makes the same call before and after M; B first holds
+        // A's first result (signed), M then claims a result for A's still pending second call and hides the first
+        "SM7" => (
+            seqs(vec![
+                call(peer("A"), "t", "f", vec![], "x"),
+                call(peer("M"), "t", "f2", vec![], "y"),
+                call(peer("A"), "t", "f", vec![], "z"),
+                call(peer("B"), "t", "f4", vec![var("x"), var("z")], ""),
+            ]),
+            vec!["A".into(), "M".into(), "B".into()],
+        ),
         // stream values and a canon by an honest peer, relayed by M
         _ => (
             seqs(vec![
@@ -253,6 +264,24 @@ fn apply_op(dj: &mut J, op: &str, i: usize, j: usize, peers: &Peers) -> bool {
                 return false;
             }
             dj["trace"][j] = dj["trace"][i].clone();
+            true
+        }
+        "forge_pending" => {
+            // a result of q replayed with a forged value (consistent store, q's tetraplet and argument hash kept) at a
+            // call that is still pending (j), while q's genuine result at i is hidden behind a pending mark: the bag
+            // attributed to q keeps its size
+            if i >= n || j >= n || i == j {
+                return false;
+            }
+            let is_res = |s: &J| s.pointer("/call/executed").is_some() || s.pointer("/call/failed").is_some();
+            if !is_res(&dj["trace"][i]) || dj["trace"][j].pointer("/call/sent_by").is_none() {
+                return false;
+            }
+            dj["trace"][j] = dj["trace"][i].clone();
+            if !rewrite_result(dj, j, &|raw, _t, _a| *raw = J::String("\"forged\"".into())) {
+                return false;
+            }
+            dj["trace"][i] = json!({"call": {"sent_by": {"PeerId": peers.id_of("M")}}});
             true
         }
         "to_failed" => {
